@@ -206,7 +206,9 @@ Witness(c) == IF Unconstrained(c) THEN [k |-> "ok-or-err"]
 (* the fString receiver), so every argument source meets every function.    *)
 ArgSrc(rk) == IF rk = "env" THEN "env" ELSE IF rk = "fString" THEN "fenv" ELSE "lit"
 
-Replacements(t) == {<<>>, <<98>>, <<233, 128512>>, t}
+(* substitutions tried for the pattern t in s: deletion, a longer multi-byte *)
+(* text, and on the shorter strings a one-symbol text and t itself          *)
+Replacements(s, t) == IF Len(s) <= 3 THEN {<<>>, <<98>>, <<233, 128512>>, t} ELSE {<<>>, <<233, 128512>>}
 
 ValueCases(s, rk) ==
   LET src == ArgSrc(rk) IN
@@ -215,14 +217,15 @@ ValueCases(s, rk) ==
   \cup {Case("substring", rk, s, <<IArg(src, st)>>) : st \in Starts(s)}
   \cup {Case("substring", rk, s, <<IArg(src, st), IArg(src, n)>>) : st \in Starts(s), n \in Lens(s)}
   \cup {Case(f, rk, s, <<SArg(src, t)>>) : f \in PatternFns, t \in Patterns(s)}
-  \cup UNION {{Case("replace", rk, s, <<SArg(src, t), SArg(src, r)>>) : r \in Replacements(t)} : t \in Patterns(s)}
+  \cup UNION {{Case("replace", rk, s, <<SArg(src, t), SArg(src, r)>>) : r \in Replacements(s, t)} : t \in Patterns(s)}
 
 LawCases(s, rk) ==
   LET src == ArgSrc(rk) IN
        {Case("law1", rk, s, <<>>)}
   \cup {Case("law2", rk, s, <<IArg(src, k)>>) : k \in 0..Len(s)}
-  \cup {Case("law3", rk, s, <<SArg(src, t)>>) : t \in {p \in Patterns(s) : Find(s, p) >= 0}}
-  \cup {Case("law4", rk, s, <<SArg(src, t)>>) : t \in Patterns(s)}
+  \cup (IF Len(s) > 3 THEN {} ELSE      \* on longer strings these two repeat what indexOf / contains cases show
+         {Case("law3", rk, s, <<SArg(src, t)>>) : t \in {p \in Patterns(s) : Find(s, p) >= 0}}
+    \cup {Case("law4", rk, s, <<SArg(src, t)>>) : t \in Patterns(s)})
 
 RegexPatterns(s) == Patterns(s) \cup {<<40>>, <<91>>, <<42, 97>>, <<46>>, <<97, 124, 233>>}
 RegexCases(s, rk) ==
@@ -281,7 +284,7 @@ StringLaws(s) ==
   /\ LawOutOfRange(s) /\ LawValid(s) /\ LawCase(s) /\ LawUtf8(s)
   /\ \A t \in Patterns(s) :
         /\ LawIndexOf(s, t) /\ LawContains(s, t) /\ LawAffix(s, t)
-        /\ \A r \in Replacements(t) : LawReplace(s, t, r)
+        /\ \A r \in Replacements(<<>>, t) : LawReplace(s, t, r)
 
 (* per-case consequences *)
 CaseLaws(c) ==
